@@ -208,8 +208,8 @@ def _c17_stages(tier):
     return [dict(variant="vh", crash_witness="/verif/build/c17.current.json.{shard}", **common),
             dict(variant="vh-bin", crash_witness="/verif/build/c17.current.bin.{shard}", **common),
             # the decoder's output is a function of its input alone: concurrent decodes of separate streams
-            dict(variant="vh", cmd="c17-conc", shards=4, timeout=3000),
-            dict(variant="vh-race", cmd="c17-conc", shards=4, timeout=3000, race=True, args=["-scale", "0.5"])]
+            dict(variant="vh", cmd="c17-conc", shards=4, timeout=3000, confirm=dict(cmd="c17-one", cpu=200)),
+            dict(variant="vh-race", cmd="c17-conc", shards=4, timeout=3000, race=True, args=["-scale", "0.5"], confirm=dict(cmd="c17-one", cpu=200))]
 
 
 CHECKS["C17"] = dict(
